@@ -124,6 +124,36 @@ CLAIMED = {
              "unchanged tree shows no last-bit noise.",
         technique="TLC model checking over all schedules + TLC-generated schedules replayed through a controlled executor; trace validation of pool events",
         design="4/C06"),
+    "C04": dict(
+        text="Dissim.tla states the documented formulas in exact rational arithmetic; TLC checks their algebra on an integer "
+             "grid (symmetry, non-negativity, zero on identical units, shift/scale invariance, linearity in delta_empty, "
+             "ordinal distance independent of supply order). For every class x delta_empty x alpha,beta x supplied label "
+             "order x category count (1..300, pairs straddling 127) x component delta_empty the harness evaluates d(u,v), "
+             "d(v,u) and the compiled form on grid and float unit pairs and TraceDissim.tla judges them against the "
+             "formula it evaluates itself.",
+        note="Levenshtein: relations only; ordinal/numerical: proportionality to the supplied positions (normaliser not fixed "
+             "by the statement); explicit positional component with its own delta_empty not generated.",
+        technique="TLA+ formulas (Dissim) checked by TLC; observed values of the real dissimilarities judged by TLC against them (trace validation)",
+        design="4/C04"),
+    "C09": dict(
+        text="The optimum depends only on the abstract problem (sizes, pairwise table): TLC checks on MC_Align's universes that "
+             "reversing the annotators leaves it unchanged and doubling every cost doubles it, and on MC_Dissim that the "
+             "positional formula is shift/scale invariant and every formula linear in delta_empty. Large random continua "
+             "(2x60, 3x15, 5x5) are aligned before and after every transformation x dissimilarity combination with exactly "
+             "representable parameters, with same-seed gamma for the delta_empty factor; TraceInvariance.tla judges.",
+        note="Only constraint placed on inputs too large for the optimality search. Tolerance 2e-5 relative.",
+        technique="TLC-checked invariance lemmas on the spec + metamorphic pairs of real runs judged by TLC",
+        design="4/C09"),
+    "C12": dict(
+        text="GammaCat.tla defines the weighted mean (1/(k-1) * max(0, 1 - alpha*pos) weights, unit/empty pairs at delta_empty "
+             "with weight delta_empty, category filter for gamma-k) exactly on an integer grid; TLC checks boundedness, zero "
+             "on agreeing alignments, absent categories, gamma-k as restriction. Real Alignment objects (hand-built with "
+             "any empty-slot pattern, best, soft; 2-5 annotators) x alpha x delta_empty x categorical component x category "
+             "are evaluated by the library and compared by TLC with its exact value; gamma runs give the combination rule "
+             "(1 if observed 0, 1 - observed/mean), <= 1, and the TypeError refusal.",
+        note="Not judged: the exit when no pair of real units is counted; gamma-k with zero mean chance disorder.",
+        technique="TLA+ definition evaluated exactly by TLC (BigNat comparison) on recorded alignments; TLC model checking of its algebra",
+        design="4/C12"),
 }
 PENDING = {}
 
